@@ -139,6 +139,7 @@ package hpack
 //@ -- value of the continuation groups at the front of q (RFC 7541 5.1): 7 bits per octet, least significant group
 //@ -- first, the octet without the top bit ends the integer
 //@ pure func dvalT(q seq[byte]) int = ite(len(q) == 0, 0, ite(q[0] < 128, q[0], q[0] % 128 + 128 * dvalT(q[1:])))
+//@ pure func vint(n int, p seq[byte]) int = ite(p[0] % pow2(n) < pow2(n) - 1, p[0] % pow2(n), pow2(n) - 1 + dvalT(p[1:]))
 //@ func readVarInt :: n, p -> i, remain, err
 //@   props C18,C10
 //@   requires [C18:prefix-size-valid] 1 <= n && n <= 8
@@ -148,6 +149,7 @@ package hpack
 //@   ensures [C18:integer-ends-at-first-byte-without-continuation-bit] err == nil && len(p) - len(remain) >= 2 ==> p[len(p) - len(remain) - 1] < 128 && (forall j int :: 1 <= j && j < len(p) - len(remain) - 1 ==> p[j] >= 128)
 //@   ensures [C18:need-more-only-when-truncated] err == errNeedMore ==> len(p) <= 9 && (forall j int :: 1 <= j && j < len(p) ==> p[j] >= 128)
 //@   ensures [C18:overlong-integer-rejected] err != nil && err != errNeedMore ==> len(p) >= 10 && (forall j int :: 1 <= j && j < 10 ==> p[j] >= 128)
+//@   ensures [C18:integer-value] err == nil ==> i == vint(n, p)
 //@   ensures [C18:integer-value-short-form] err == nil && len(p) - len(remain) == 1 ==> i == p[0] % pow2(n) && i < pow2(n) - 1
 //@   ensures [C18:integer-value-long-form] err == nil && len(p) - len(remain) >= 2 ==> p[0] % pow2(n) == pow2(n) - 1 && i == pow2(n) - 1 + dvalT(p[1:])
 //@   loop 1 invariant origP[0] % pow2(n) == pow2(n) - 1 && 0 <= i - (pow2(n) - 1) && i - (pow2(n) - 1) < pow2(m) && (i - (pow2(n) - 1)) + pow2(m) * dvalT(p#1) == dvalT(origP[1:])
@@ -195,6 +197,8 @@ package hpack
 //@   ensures [C18:need-more-changes-nothing] err == errNeedMore ==> d.buf == old(d.buf) && d.emitted == old(d.emitted)
 //@   ensures [C18:at-most-one-field-emitted] d.emitted == old(d.emitted) || (err == nil && d.emitEnabled && len(d.emitted) == len(old(d.emitted)) + 1 && d.emitted[:len(old(d.emitted))] == old(d.emitted) && !d.emitted[len(old(d.emitted))].Sensitive)
 //@   ensures [C18:success-means-emitted-when-enabled] err == nil && d.emitEnabled ==> len(d.emitted) == len(old(d.emitted)) + 1
+//@   ensures [C18:indexed-field-is-the-table-entry-at-the-decoded-index] err == nil && d.emitEnabled ==> vint(7, old(d.buf)) >= 1 && vint(7, old(d.buf)) <= 61 + len(d.dynTab.table.ents) && d.emitted[len(old(d.emitted))].Name == ite(vint(7, old(d.buf)) <= 61, staticTable.ents[vint(7, old(d.buf)) - 1].Name, d.dynTab.table.ents[len(d.dynTab.table.ents) - (vint(7, old(d.buf)) - 61)].Name) && d.emitted[len(old(d.emitted))].Value == ite(vint(7, old(d.buf)) <= 61, staticTable.ents[vint(7, old(d.buf)) - 1].Value, d.dynTab.table.ents[len(d.dynTab.table.ents) - (vint(7, old(d.buf)) - 61)].Value)
+//@   ensures [C18:index-zero-is-a-decoding-error] err == nil ==> vint(7, old(d.buf)) != 0
 
 //@ func (*Decoder).parseDynamicTableSizeUpdate :: d -> err
 //@   props C18,C10
@@ -202,6 +206,7 @@ package hpack
 //@   assigns d.buf, d.dynTab.maxSize, d.dynTab.size, d.dynTab.table.ents, d.dynTab.table.evictCount, mapOf(d.dynTab.table.byName), mapOf(d.dynTab.table.byNameValue)
 //@   ensures [C18:size-update-only-at-block-start] !old(d.firstField) && old(d.dynTab.size) > 0 ==> err != nil && err != errNeedMore && d.buf == old(d.buf) && d.dynTab.maxSize == old(d.dynTab.maxSize) && d.dynTab.table.ents == old(d.dynTab.table.ents)
 //@   ensures [C18:size-update-within-allowed-maximum] err == nil ==> d.dynTab.maxSize <= d.dynTab.allowedMaxSize && d.dynTab.size <= d.dynTab.maxSize
+//@   ensures [C18:new-limit-is-the-decoded-integer] err == nil ==> d.dynTab.maxSize == vint(5, old(d.buf))
 //@   ensures [C18:success-consumes-a-prefix] err == nil ==> len(d.buf) < len(old(d.buf)) && d.buf == old(d.buf)[len(old(d.buf)) - len(d.buf):]
 //@   ensures [C18:failure-changes-nothing] err != nil ==> d.buf == old(d.buf) && d.dynTab.maxSize == old(d.dynTab.maxSize) && d.dynTab.table.ents == old(d.dynTab.table.ents) && d.dynTab.size == old(d.dynTab.size)
 //@   ensures [C18:table-stays-consistent] smallState(d) || (err != nil && err != errNeedMore)
@@ -282,6 +287,10 @@ package hpack
 //@ pure func venc(n int, i int) seq[byte] = ite(i < pow2(n) - 1, seq[byte]{i}, seq[byte]{pow2(n) - 1} ++ vgroups(i - (pow2(n) - 1)))
 //@ lemma [C18:continuation-groups-decode-to-the-encoded-value] rtGroups(r int, rest seq[byte]) induction r from 0 = 0 <= r ==> dvalT(vgroups(r) ++ rest) == r
 //@ lemma [C18:integer-round-trip] rtVarint(n int, i int, rest seq[byte]) using rtGroups = 1 <= n && n <= 8 && 0 <= i ==> (i < pow2(n) - 1 ==> (venc(n, i) ++ rest)[0] % pow2(n) == i) && (i >= pow2(n) - 1 ==> (venc(n, i) ++ rest)[0] % pow2(n) == pow2(n) - 1 && pow2(n) - 1 + dvalT((venc(n, i) ++ rest)[1:]) == i)
+//@ -- an integer with representation flag bits in the first octet, and what the decoder computes from it
+//@ pure func vencF(n int, flag int, i int) seq[byte] = ite(i < pow2(n) - 1, seq[byte]{flag + i}, seq[byte]{flag + pow2(n) - 1} ++ vgroups(i - (pow2(n) - 1)))
+//@ lemma [C18:indexed-field-index-round-trip] rtIndexed(i int, rest seq[byte]) using rtGroups = 0 <= i ==> vint(7, vencF(7, 128, i) ++ rest) == i && (vencF(7, 128, i) ++ rest)[0] >= 128
+//@ lemma [C18:size-update-value-round-trip] rtSizeUpdate(v int, rest seq[byte]) using rtGroups = 0 <= v ==> vint(5, vencF(5, 32, v) ++ rest) == v && (vencF(5, 32, v) ++ rest)[0] / 32 == 1
 //@ func appendVarInt :: dst, n, i -> out
 //@   props C18,C10
 //@   requires 1 <= n && n <= 8
@@ -295,11 +304,13 @@ package hpack
 //@   props C18,C10
 //@   assigns nothing
 //@   ensures [C18:size-update-appended-after-existing-bytes] len(out) > len(dst) && out[:len(dst)] == dst
+//@   ensures [C18:size-update-wire-image] out == dst ++ vencF(5, 32, v)
 
 //@ func appendIndexed :: dst, i -> out
 //@   props C18,C10
 //@   assigns nothing
 //@   ensures [C18:indexed-field-appended-after-existing-bytes] len(out) > len(dst) && out[:len(dst)] == dst
+//@   ensures [C18:indexed-field-wire-image] out == dst ++ vencF(7, 128, i)
 
 //@ func (*Encoder).shouldIndex :: e, f -> r
 //@   props C18
